@@ -166,6 +166,13 @@ func (h *Handler) Handle(cx *layer4.Connection, next layer4.Handler) error {
 	// Set conn as a custom variable on cx.
 	cx.SetVar("l4.proxy_protocol.conn", conn)
 
+	// Later matchers and handlers see the addresses from the PROXY header (through conn);
+	// make the address placeholders agree with them.
+	if repl, ok := cx.Context.Value(layer4.ReplacerCtxKey).(*caddy.Replacer); ok {
+		repl.Set("l4.conn.remote_addr", conn.RemoteAddr())
+		repl.Set("l4.conn.local_addr", conn.LocalAddr())
+	}
+
 	return next.Handle(cx.Wrap(conn))
 }
 
